@@ -167,7 +167,14 @@ func shapeFamilies() []shapeFamily {
 					vr.ReadValue(bd)
 				}
 				for i := 0; i < n; i++ {
-					vr.ReadValue(sd)
+					switch {
+					case first == "ReadArray" && (sd[0] == '[' || sd[0] == 'n'):
+						vr.ReadArray(sd)
+					case first == "ReadObject" && (sd[0] == '{' || sd[0] == 'n'):
+						vr.ReadObject(sd)
+					default:
+						vr.ReadValue(sd)
+					}
 				}
 			})
 			total += n * len(sd)
@@ -182,6 +189,9 @@ func shapeFamilies() []shapeFamily {
 		reusedVia("reused-reader/ReadArray-big-objects-then-small-objects", "ReadArray", func(n int) string { return "[" + bigObject(n) + "," + bigObject(3) + "]" }, `{"a":1}`),
 		reusedVia("reused-reader/ReadObject-big-then-small-objects", "ReadObject", func(n int) string { return `{"x":` + bigObject(n) + `,"y":{}}` }, `{"a":{"b":1}}`),
 		reusedVia("reused-reader/ReadArray-big-array-then-small-arrays", "ReadArray", func(n int) string { return "[" + bigArray(n, "1") + ",[2]]" }, `[[1],2]`),
+		reused("reused-reader/big-array-then-failing-small-docs", func(n int) string { return bigArray(n*20, "1") }, `[1,`),
+		reusedVia("reused-reader/ReadArray-big-array-then-nulls", "ReadArray", func(n int) string { return bigArray(n*20, "1") }, `null`),
+		reusedVia("reused-reader/ReadObject-big-object-then-failing-small-docs", "ReadObject", func(n int) string { return bigObject(n * 5) }, `{"a":1,`),
 		reused("reused-reader/big-object-then-small-docs", bigObject, `{"a":{"b":1}}`),
 		reused("reused-reader/big-object-in-array-then-small-docs", func(n int) string { return "[" + bigObject(n) + ",{}]" }, `[{"a":1},{"b":{}}]`),
 		reused("reused-reader/big-array-then-small-docs", func(n int) string { return bigArray(n, "[1]") }, `[[1],[2]]`),
@@ -365,6 +375,19 @@ func costAlphabet(thorough bool) []costOp {
 		{"deep", []byte(rep("[", n) + rep("]", n)), ""},
 		{"long-escaped-string", []byte(`["` + rep(`\n`, 10000) + `"]`), ""},
 		{"error-eof", []byte(`[{"a":[1,`), ""},
+		// failing and null documents: a size hint must not survive a failed read for ever
+		{"error-array-eof", []byte(`[1,`), ""},
+		{"error-array-syntax", []byte(`[1,x]`), ""},
+		{"error-object-eof", []byte(`{"a":1,`), ""},
+		{"ReadArray/error-array-eof", []byte(`[1,`), "ReadArray"},
+		{"ReadArray/null", []byte(`null`), "ReadArray"},
+		{"ReadObject/null", []byte(`null`), "ReadObject"},
+		{"ReadObject/error-object-eof", []byte(`{"a":1,`), "ReadObject"},
+		// large enough that one stale hint costs more than the per-call constant
+		{"huge-array", []byte(bigArray(40000, "1")), ""},
+		{"ReadArray/huge-array", []byte(bigArray(40000, "1")), "ReadArray"},
+		{"huge-object", []byte(bigObject(20000)), ""},
+		{"ReadObject/huge-object", []byte(bigObject(20000)), "ReadObject"},
 	}
 	if thorough {
 		ops = append(ops, costOp{"big-object-8000", []byte(bigObject(8000)), ""}, costOp{"deep-objects", []byte(rep(`{"a":`, n) + "1" + rep("}", n)), ""})
